@@ -3,4 +3,322 @@ import Model.Entry
 import Proofs.Lin
 import Proofs.LogCounter
 namespace Sketchnu
+
+/-! ### `iter` -/
+
+theorem iter_succ' {α : Type} (f : α → α) (n : Nat) (a : α) :
+    iter f (n + 1) a = f (iter f n a) := by
+  induction n generalizing a with
+  | zero => rfl
+  | succ n ih =>
+    show iter f (n + 1) (f a) = f (iter f n (f a))
+    exact ih (f a)
+
+/-- a left fold over `n` copies of `a` is `n` applications of the step -/
+theorem foldl_replicate_iter {α β : Type} (f : β → α → β) (a : α) (n : Nat) (s : β) :
+    (List.replicate n a).foldl f s = iter (fun s => f s a) n s := by
+  induction n generalizing s with
+  | zero => rfl
+  | succ n ih =>
+    rw [List.replicate_succ, List.foldl_cons]
+    exact ih (f s a)
+
+variable {K D : Type} [DecidableEq K]
+
+/-- raising twice to increasing targets is raising once to the larger -/
+theorem raiseTo_raiseTo (g : Geom K) (T : Tab) (k : K) (a b : Nat) (h : a ≤ b) :
+    raiseTo g (raiseTo g T k a) k b = raiseTo g T k b := by
+  funext r c
+  simp only [raiseTo_apply]
+  by_cases h1 : r < g.depth ∧ c = g.col r k
+  · obtain ⟨hr, hc⟩ := h1
+    subst hc
+    simp only [hr, true_and]
+    split <;> split <;> (try split) <;> omega
+  · have e : ∀ p : Prop, (r < g.depth ∧ c = g.col r k ∧ p) = False := by
+      intro p; apply propext; constructor
+      · intro hp; exact h1 ⟨hp.1, hp.2.1⟩
+      · intro hf; exact hf.elim
+    simp only [e, if_false]
+
+/-! ### linear count-min: `add k v` is `v` unit adds -/
+
+namespace Lin
+
+theorem ext' (a b : Lin) (h1 : a.tab = b.tab) (h2 : a.nAdded = b.nAdded)
+    (h3 : a.nRecords = b.nRecords) : a = b := by
+  cases a; cases b; simp only at h1 h2 h3; subst h1; subst h2; subst h3; rfl
+
+/-- table after an add, saturated or not -/
+theorem add_tab (g : Geom K) (s : Lin) (k : K) (v : Nat) :
+    (add g s k v).tab = raiseTo g s.tab k (min (query g s k + v) CAP) := by
+  by_cases h : query g s k = CAP
+  · rw [add_of_sat g s k v h]
+    have e : min (query g s k + v) CAP = tquery g CAP s.tab k := by
+      unfold query at h ⊢; omega
+    rw [e, raiseTo_min_id]
+  · exact add_tab_of_lt g s k v h
+
+theorem add_nAdded' (g : Geom K) (s : Lin) (k : K) (v : Nat) :
+    (add g s k v).nAdded = s.nAdded + min (min v CAP) (CAP - query g s k) := by
+  unfold add
+  simp only
+  split
+  · next h => rw [h]; omega
+  · rfl
+
+theorem add_nRecords (g : Geom K) (s : Lin) (k : K) (v : Nat) :
+    (add g s k v).nRecords = s.nRecords := by
+  unfold add
+  simp only
+  split <;> rfl
+
+theorem add_zero (g : Geom K) (s : Lin) (k : K) : add g s k 0 = s := by
+  apply ext'
+  · rw [add_tab]
+    have hle : query g s k ≤ CAP := tquery_le_cap g CAP s.tab k
+    have e : min (query g s k + 0) CAP = tquery g CAP s.tab k := by
+      unfold query at hle ⊢; omega
+    rw [e, raiseTo_min_id]
+  · rw [add_nAdded']; omega
+  · exact add_nRecords g s k 0
+
+theorem add_succ (g : Geom K) (s : Lin) (k : K) (v : Nat) :
+    add g (add g s k v) k 1 = add g s k (v + 1) := by
+  have hle : query g s k ≤ CAP := tquery_le_cap g CAP s.tab k
+  apply ext'
+  · rw [add_tab g (add g s k v), add_tab g s k v, add_tab g s k (v + 1), add_self,
+      raiseTo_raiseTo _ _ _ _ _ (by omega)]
+    congr 1
+    omega
+  · rw [add_nAdded' g (add g s k v), add_nAdded' g s k v, add_nAdded' g s k (v + 1), add_self]
+    have hC : 1 ≤ CAP := by unfold CAP; omega
+    generalize query g s k = q at hle ⊢
+    generalize CAP = C at hle hC ⊢
+    omega
+  · rw [add_nRecords, add_nRecords, add_nRecords]
+
+/-- `add(key, v)` is exactly `v` unit adds (whole state) -/
+theorem add_mult (g : Geom K) (s : Lin) (k : K) (v : Nat) :
+    add g s k v = iter (fun s => add g s k 1) v s := by
+  induction v with
+  | zero => exact add_zero g s k
+  | succ v ih => rw [iter_succ', ← ih, add_succ]
+
+end Lin
+
+/-! ### heavy hitters -/
+
+namespace HCell
+
+theorem add_zero (c : HCell K) (hc : c.cnt ≤ CAP) (k : K) : c.add k 0 = c := by
+  cases c with
+  | mk key cnt =>
+    simp only at hc
+    unfold add
+    simp only
+    split
+    · split
+      · rfl
+      · have : cnt = CAP := by omega
+        rw [this]
+    · split
+      · omega
+      · rfl
+
+theorem add_cnt_le (c : HCell K) (hc : c.cnt ≤ CAP) (k : K) : (c.add k 1).cnt ≤ CAP := by
+  have hC : 1 ≤ CAP := by unfold CAP; omega
+  unfold add
+  split
+  · simp only; split <;> omega
+  · split
+    · simp only; omega
+    · simp only; omega
+
+/-- one more unit after `v`, for `v + 1 ≤ CAP` (see `add_mult_false` for larger `v`) -/
+theorem add_succ (c : HCell K) (k : K) (v : Nat) (hv : v < CAP) :
+    (c.add k v).add k 1 = c.add k (v + 1) := by
+  cases c with
+  | mk key cnt =>
+    unfold add
+    simp only
+    by_cases hk : key = k
+    · simp only [hk, if_true]
+      split <;> split <;> (try split) <;> simp only [HCell.mk.injEq, true_and] <;> omega
+    · simp only [hk, if_false]
+      by_cases h1 : v > cnt
+      · have h2 : v + 1 > cnt := by omega
+        simp only [h1, h2, if_true]
+        split
+        · simp only [HCell.mk.injEq, true_and]; omega
+        · simp only [HCell.mk.injEq, true_and]; omega
+      · simp only [h1, if_false, hk]
+        by_cases h2 : v + 1 > cnt
+        · have h3 : 1 > cnt - v := by omega
+          simp only [h2, h3, if_true, HCell.mk.injEq, true_and]
+          omega
+        · have h3 : ¬ (1 > cnt - v) := by omega
+          simp only [h2, h3, if_false, HCell.mk.injEq, true_and]
+          omega
+
+/-- the Boyer–Moore replace rule `v - count` equals `count` decrements, one replacement and
+    `v - count - 1` increments — for `v ≤ CAP` -/
+theorem add_mult (c : HCell K) (hc : c.cnt ≤ CAP) (k : K) (v : Nat) (hv : v ≤ CAP) :
+    c.add k v = iter (fun c => c.add k 1) v c := by
+  induction v with
+  | zero => exact add_zero c hc k
+  | succ v ih => rw [iter_succ', ← ih (by omega), add_succ c k v (by omega)]
+
+theorem iter_cnt_le (k : K) (v : Nat) (c : HCell K) (hc : c.cnt ≤ CAP) :
+    (iter (fun c => c.add k 1) v c).cnt ≤ CAP := by
+  induction v with
+  | zero => exact hc
+  | succ v ih => rw [iter_succ']; exact add_cnt_le _ ih k
+
+/-- `Properties/C12.lean : hh_cell_add_mult` is FALSE without a bound on `v`: a cell holding another
+    key with count 0 receives `v = CAP + 1`: the kernel stores `CAP + 1`, unit adds saturate at `CAP`. -/
+theorem add_mult_false :
+    ¬ (∀ (c : HCell Nat), c.cnt ≤ CAP → ∀ (k : Nat) (v : Nat),
+        c.add k v = iter (fun c => c.add k 1) v c) := by
+  intro h
+  have h1 := h ⟨0, 0⟩ (Nat.zero_le _) 1 (CAP + 1)
+  have h2 := iter_cnt_le (1 : Nat) (CAP + 1) (⟨0, 0⟩ : HCell Nat) (Nat.zero_le _)
+  rw [← h1] at h2
+  have h3 : ((⟨0, 0⟩ : HCell Nat).add 1 (CAP + 1)).cnt = CAP + 1 := by
+    unfold add; simp
+  omega
+
+end HCell
+
+namespace HH
+
+theorem ext' (a b : HH K) (h1 : a.tab = b.tab) (h2 : a.nAdded = b.nAdded)
+    (h3 : a.nRecords = b.nRecords) : a = b := by
+  cases a; cases b; simp only at h1 h2 h3; subst h1; subst h2; subst h3; rfl
+
+theorem add_zero (g : Geom K) (s : HH K) (hs : ∀ r c, (s.tab r c).cnt ≤ CAP) (k : K) :
+    add g s k 0 = s := by
+  apply ext'
+  · funext r c
+    simp only [add, Nat.zero_min]
+    split
+    · exact HCell.add_zero _ (hs r c) k
+    · rfl
+  · simp only [add, Nat.zero_min, Nat.add_zero]
+  · rfl
+
+theorem add_succ (g : Geom K) (s : HH K) (k : K) (v : Nat) (hv : v < CAP) :
+    add g (add g s k v) k 1 = add g s k (v + 1) := by
+  have e0 : min v CAP = v := Nat.min_eq_left (by omega)
+  have e1 : min 1 CAP = 1 := by unfold CAP; omega
+  have e2 : min (v + 1) CAP = v + 1 := Nat.min_eq_left (by omega)
+  apply ext'
+  · funext r c
+    simp only [add, e0, e1, e2]
+    by_cases h : r < g.depth ∧ c = g.col r k
+    · simp only [h, and_self, if_true]
+      exact HCell.add_succ _ k v hv
+    · simp only [h, if_false]
+  · simp only [add, e0, e1, e2]; omega
+  · rfl
+
+/-- heavy hitters: `add(key, v)` is exactly `v` unit adds for `v ≤ CAP` (whole state) -/
+theorem add_mult (g : Geom K) (s : HH K) (hs : ∀ r c, (s.tab r c).cnt ≤ CAP) (k : K) (v : Nat)
+    (hv : v ≤ CAP) : add g s k v = iter (fun s => add g s k 1) v s := by
+  induction v with
+  | zero => exact add_zero g s hs k
+  | succ v ih => rw [iter_succ', ← ih (by omega), add_succ g s k v (by omega)]
+
+end HH
+
+/-! ### log counters -/
+
+/-- `v + 1` steps = `v` steps then one more, threading the draw state -/
+theorem logCounter_snoc (cfg : LogCfg D) (draws : Nat → Nat → D) (v c : Nat) (rs : RandState) :
+    logCounter cfg draws (v + 1) c rs =
+      logCounter cfg draws 1 (logCounter cfg draws v c rs).1 (logCounter cfg draws v c rs).2 := by
+  induction v generalizing c rs with
+  | zero => rfl
+  | succ v ih =>
+    rw [logCounter_succ cfg draws (v + 1) c rs, logCounter_succ cfg draws v c rs]
+    by_cases h1 : c ≥ cfg.maxc
+    · simp only [h1, if_true]
+      exact (logCounter_stop cfg draws 1 c rs h1).symm
+    · simp only [h1, if_false]
+      by_cases h2 : c < cfg.nr
+      · simp only [h2, if_true]; exact ih (c + 1) rs
+      · simp only [h2, if_false]
+        split
+        · exact ih (c + 1) rs.next.2
+        · exact ih c rs.next.2
+
+theorem logCounter_iter (cfg : LogCfg D) (draws : Nat → Nat → D) (v c : Nat) (rs : RandState) :
+    logCounter cfg draws v c rs =
+      iter (fun p : Nat × RandState => logCounter cfg draws 1 p.1 p.2) v (c, rs) := by
+  induction v with
+  | zero => rfl
+  | succ v ih => rw [iter_succ', ← ih, logCounter_snoc]
+
+namespace Log
+
+theorem ext' (a b : Log) (h1 : a.tab = b.tab) (h2 : a.nAdded = b.nAdded)
+    (h3 : a.nRecords = b.nRecords) (h4 : a.rs = b.rs) : a = b := by
+  cases a; cases b; simp only at h1 h2 h3 h4; subst h1; subst h2; subst h3; subst h4; rfl
+
+theorem add_rs (g : Geom K) (cfg : LogCfg D) (draws : Nat → Nat → D) (s : Log) (k : K) (v : Nat) :
+    (add g cfg draws s k v).rs = (logCounter cfg draws v (queryC g cfg s k) s.rs).2 := by
+  unfold add
+  simp only
+  split <;> rfl
+
+theorem add_zero (g : Geom K) (cfg : LogCfg D) (draws : Nat → Nat → D) (s : Log) (k : K) :
+    add g cfg draws s k 0 = s := by
+  apply ext'
+  · rw [add_tab]
+    show raiseTo g s.tab k (tquery g cfg.maxc s.tab k) = s.tab
+    exact raiseTo_min_id g cfg.maxc s.tab k
+  · exact (add_books g cfg draws s k 0).1
+  · exact (add_books g cfg draws s k 0).2
+  · rw [add_rs]; rfl
+
+theorem add_succ (g : Geom K) (cfg : LogCfg D) (draws : Nat → Nat → D) (s : Log) (k : K) (v : Nat) :
+    add g cfg draws (add g cfg draws s k v) k 1 = add g cfg draws s k (v + 1) := by
+  apply ext'
+  · rw [add_tab g cfg draws (add g cfg draws s k v), add_tab g cfg draws s k v,
+      add_tab g cfg draws s k (v + 1), add_self, add_rs,
+      raiseTo_raiseTo _ _ _ _ _ (logCounter_steps cfg draws 1 _ _).1, ← logCounter_snoc]
+  · rw [(add_books g cfg draws (add g cfg draws s k v) k 1).1, (add_books g cfg draws s k v).1,
+      (add_books g cfg draws s k (v + 1)).1]
+    omega
+  · rw [(add_books g cfg draws (add g cfg draws s k v) k 1).2, (add_books g cfg draws s k v).2,
+      (add_books g cfg draws s k (v + 1)).2]
+  · rw [add_rs g cfg draws (add g cfg draws s k v), add_self, add_rs g cfg draws s k v,
+      add_rs g cfg draws s k (v + 1), ← logCounter_snoc]
+
+/-- log sketch: `add(key, v)` is exactly `v` unit adds under the same draw stream (whole state) -/
+theorem add_mult (g : Geom K) (cfg : LogCfg D) (draws : Nat → Nat → D) (s : Log) (k : K) (v : Nat) :
+    add g cfg draws s k v = iter (fun s => add g cfg draws s k 1) v s := by
+  induction v with
+  | zero => exact add_zero g cfg draws s k
+  | succ v ih => rw [iter_succ', ← ih, add_succ]
+
+end Log
+
+/-! ### ngram entry point -/
+
+theorem addNgram_short {S : Type} (add1 : S → List UInt8 → S) (s : S) (key : List UInt8) (n : Nat)
+    (h : key.length ≤ n) : addNgram add1 s key n = add1 s key := by
+  unfold addNgram windows
+  rw [if_pos h]
+  rfl
+
+theorem addNgram_long {S : Type} (add1 : S → List UInt8 → S) (s : S) (key : List UInt8) (n : Nat)
+    (hn : 1 ≤ n) (h : n < key.length) :
+    addNgram add1 s key n =
+      (List.range (key.length - n + 1)).foldl (fun s i => add1 s ((key.drop i).take n)) s := by
+  unfold addNgram windows
+  rw [if_neg (by omega), List.foldl_map]
+  have e : key.length - (n - 1) = key.length - n + 1 := by omega
+  rw [e]
+
 end Sketchnu
